@@ -5,6 +5,7 @@ import OpusProofs.RangeCoderPatchRun
 import OpusProofs.RangeCoderLockstep3
 import OpusProofs.RangeCoderFlags
 import OpusProofs.RangeCoderCodes
+import OpusProofs.SilkSymsEncFrame
 /-
   Property C08 — "Range coder: the decoder inverts the encoder symbol for symbol, within budget".
 
@@ -384,5 +385,56 @@ theorem bytes_below_tell (buf : List Nat) (size : Nat) (ops : List Op) (hs : siz
 example : (encRun (encInit (List.replicate 12 170) 12) exampleOps).offs = 5 ∧
     (encRun (encInit (List.replicate 12 170) 12) exampleOps).endOffs = 0 ∧
     tell (encRun (encInit (List.replicate 12 170) 12) exampleOps) = 86 := by decide +kernel
+
+/-! ## Composition with C03: the SILK symbol layer, encoder against decoder -/
+
+open Opus.SilkSyms Opus.SilkSymsEnc Opus.SilkSymsEncProofs in
+/-- "What `silk_encode_indices` + `silk_encode_pulses` write, `silk_decode_indices` + `silk_decode_pulses`
+    read back" — one mono packet of one SILK frame without LBRR data, through the real range coder.
+    Encoder model: `OpusModel/SilkSymsEnc.lean` (`encodeMonoFrame` = header placeholder,
+    `silk_encode_indices`, `silk_encode_pulses` with rate-level search, down-scaling, shell coder, LSBs and
+    signs, then `ec_enc_patch_initial_bits(VAD<<1, 2)`), as a list of range-coder operations.
+    Decoder model: C03's `silkDecodeCall` (`OpusModel/SilkSyms.lean`), untouched.
+    For EVERY internal rate, 10 or 20 ms, every index assignment in the encoder's domain (`IxOk`: the
+    `silk_assert`s of encode_indices.c, the VAD flag equal to `signalType ≠ 0`, unused members at the value
+    the decoder reports) and every `opus_int8` pulse vector with |p| ≤ 127 (`PulsesOk`), any buffer: if
+    `ec_enc_done` leaves `error = 0`, the decoder run on the produced bytes reports exactly the VAD/LBRR flags,
+    the indices and the pulses that were encoded (`monoEvents`: `pulsesView` is the rate level, block sums,
+    shift counts, amplitudes and signed pulses the encoder computed), its error flag is clear and it ends
+    with the encoder's `rng` and `ec_tell`.  Whatever the decoder state `st` before the packet. -/
+theorem silk_syms_roundtrip_frame (buf : List Nat) (size : Nat) (rate : Rate) (nbSubfr vad : Nat) (ix : Indices)
+    (pulses : List Int) (ops : List Op) (st : SilkSt) (hs : size ≤ buf.length) (hb : BytesOk buf)
+    (hnb : nbSubfr = 2 ∨ nbSubfr = 4) (hv : vad ≤ 1) (hix : IxOk rate nbSubfr (decide (vad ≠ 0)) 0 ix)
+    (hp : PulsesOk (frameLength rate nbSubfr) pulses) (hops : encodeMonoFrame rate nbSubfr vad ix pulses = .ok ops)
+    (hn : (encodeAll buf size ops).nbitsTotal < 4294967296) (herr : (encodeAll buf size ops).error = 0) :
+    let e := encodeAll buf size ops
+    let r := silkDecodeCall (monoCfg rate nbSubfr) true st (decInit (e.buf.take e.storage) e.storage)
+    r.1 = monoEvents rate nbSubfr vad ix pulses (encRun (encInit buf size) ops).rng (tell (encRun (encInit buf size) ops)) ∧
+    r.2.2.error = 0 ∧ r.2.2.rng = (encRun (encInit buf size) ops).rng ∧
+    r.2.2.nbitsTotal = (encRun (encInit buf size) ops).nbitsTotal :=
+  silk_syms_roundtrip_frame_all buf size rate nbSubfr vad ix pulses ops st hs hb hnb hv hix hp hops hn herr
+
+/-- NB, 10 ms, voiced: all index kinds, an extension residual at either end, a block that needs two
+    right-shifts (escape chain + LSBs), blocks without pulses, both signs. -/
+def exampleIx : Opus.SilkSyms.Indices :=
+  { signalType := 2, quantOffsetType := 1, gains := [37, 5], nlsf0 := 17, nlsfRes := [0, 3, -10, 10, 4, -4, 1, 0, -1, 2], interp := 4, lagIndex := 100, contourIndex := 2, perIndex := 1, ltp := [15, 0], ltpScale := 2, seed := 3 }
+
+def examplePulses : List Int :=
+  [0, 1, 0, -1, 2, 0, 0, 0, 0, 0, 0, 0, 0, 0, 0, 1] ++ List.replicate 16 0 ++
+  [40, -3, 0, 0, 1, 0, 0, 0, 0, 0, -7, 0, 0, 0, 0, 0] ++ List.replicate 16 0 ++
+  [0, 0, 0, 0, 0, 0, 0, -1, 0, 0, 0, 0, 0, 0, 0, 0]
+
+open Opus.SilkSyms Opus.SilkSymsEnc in
+example : IxOk .nb 2 (decide (1 ≠ 0)) 0 exampleIx ∧ PulsesOk (frameLength .nb 2) examplePulses :=
+  ⟨⟨by decide, by decide, by decide, by decide, by decide, by decide, by decide, by decide, by decide, by decide,
+    by decide, by decide, by decide, by decide, by decide, by decide, by decide⟩, ⟨by decide, by decide⟩⟩
+
+open Opus.SilkSyms Opus.SilkSymsEnc Opus.SilkSymsEncProofs in
+example : ∃ ops, encodeMonoFrame .nb 2 1 exampleIx examplePulses = .ok ops ∧ ops.length = 113 ∧
+    (encodeAll (List.replicate 40 0) 40 ops).error = 0 ∧
+    (silkDecodeCall (monoCfg .nb 2) true {} (decInit ((encodeAll (List.replicate 40 0) 40 ops).buf.take
+      (encodeAll (List.replicate 40 0) 40 ops).storage) (encodeAll (List.replicate 40 0) 40 ops).storage)).1.length = 4 := by
+  refine ⟨(match encodeMonoFrame .nb 2 1 exampleIx examplePulses with | .ok o => o | _ => []), ?_⟩
+  decide +kernel
 
 end OpusProps.C08
